@@ -395,6 +395,11 @@ class Executor:
             self._bump("calls_faulted")
             if key:
                 self.tainted.add(key)
+        elif kind == "exc" and isinstance(value, MemoryError):
+            # a genuine (not injected) MemoryError is a resource limit of this process, not a value: where the
+            # address-space limit bites depends on how much the process already holds, so it is never compared
+            ev["unjudged"] = "MemoryError outcome (resource limit)"
+            self._bump("calls_unjudged_memoryerror")
         elif self.oracle is not None:
             req = {"op": st["op"], "args": pre[:len(pos)],
                    "kw": [[k, pre[len(pos) + n]] for n, (k, _) in enumerate(kwl)],
@@ -403,6 +408,9 @@ class Executor:
             if "unrebuildable" in ref:
                 ev["unjudged"] = ref["unrebuildable"]
                 self._bump("calls_unjudged_unrebuildable")
+            elif ref["out"]["k"] == "exc" and ref["out"]["v"].get("c", "").endswith(":MemoryError"):
+                ev["unjudged"] = "MemoryError in the reference (resource limit)"
+                self._bump("calls_unjudged_memoryerror")
             else:
                 if not ref["roundtrip_ok"]:
                     raise HarnessError(f"canon(rebuild(c)) != c for an argument of {st['op']}: "
